@@ -46,7 +46,7 @@ func (x *cacheX) src(n ast.Node) string {
 func (x *cacheX) lines(stmts []ast.Stmt, out *[]string) error {
 	for _, st := range stmts {
 		switch s := st.(type) {
-		case *ast.ExprStmt, *ast.AssignStmt, *ast.IncDecStmt, *ast.ReturnStmt, *ast.DeclStmt, *ast.BranchStmt:
+		case *ast.ExprStmt, *ast.AssignStmt, *ast.IncDecStmt, *ast.ReturnStmt, *ast.DeclStmt, *ast.BranchStmt, *ast.SendStmt:
 			*out = append(*out, x.src(s))
 		case *ast.BlockStmt:
 			if err := x.lines(s.List, out); err != nil {
@@ -82,6 +82,62 @@ func (x *cacheX) lines(stmts []ast.Stmt, out *[]string) error {
 				return err
 			}
 			*out = append(*out, "}")
+		case *ast.RangeStmt:
+			head := "for "
+			if s.Key != nil {
+				head += x.src(s.Key)
+				if s.Value != nil {
+					head += ", " + x.src(s.Value)
+				}
+				head += " " + s.Tok.String() + " "
+			}
+			*out = append(*out, head+"range "+x.src(s.X)+" {")
+			if err := x.lines(s.Body.List, out); err != nil {
+				return err
+			}
+			*out = append(*out, "}")
+		case *ast.DeferStmt:
+			if fl, ok := s.Call.Fun.(*ast.FuncLit); ok && len(s.Call.Args) == 0 {
+				*out = append(*out, "defer func() {")
+				if err := x.lines(fl.Body.List, out); err != nil {
+					return err
+				}
+				*out = append(*out, "}()")
+			} else {
+				*out = append(*out, "defer "+x.src(s.Call))
+			}
+		case *ast.GoStmt:
+			if fl, ok := s.Call.Fun.(*ast.FuncLit); ok && len(s.Call.Args) == 0 {
+				*out = append(*out, "go func() {")
+				if err := x.lines(fl.Body.List, out); err != nil {
+					return err
+				}
+				*out = append(*out, "}()")
+			} else {
+				*out = append(*out, "go "+x.src(s.Call))
+			}
+		case *ast.SelectStmt:
+			*out = append(*out, "select {")
+			for _, c := range s.Body.List {
+				cc, ok := c.(*ast.CommClause)
+				if !ok {
+					return fmt.Errorf("unsupported select body")
+				}
+				if cc.Comm == nil {
+					*out = append(*out, "default:")
+				} else {
+					*out = append(*out, "case "+x.src(cc.Comm)+":")
+				}
+				if err := x.lines(cc.Body, out); err != nil {
+					return err
+				}
+			}
+			*out = append(*out, "}")
+		case *ast.LabeledStmt:
+			*out = append(*out, x.src(s.Label)+":")
+			if err := x.lines([]ast.Stmt{s.Stmt}, out); err != nil {
+				return err
+			}
 		case *ast.SwitchStmt:
 			head := "switch "
 			if s.Init != nil {
